@@ -8,8 +8,8 @@
 (*                     range for structural fields (segment lengths, frame *)
 (*                     / scan / SIZ / COD / QCD / SOT bodies, table ids)   *)
 (*                     and a boundary set elsewhere (Full = TRUE: the full *)
-(*                     range for every header byte, 26 boundary values for *)
-(*                     every byte of the entropy-coded data)               *)
+(*                     range for structural bytes, 26 boundary values for  *)
+(*                     every other byte incl. the entropy-coded data)      *)
 (*   Shift(D) (JPEG 2000: image and tile grid moved by D on the reference  *)
 (*   grid, declared size unchanged),                                       *)
 (*   Truncate(n), RandomTail(n), SetTwo(o1, o2), FrameInfo(i) (codec-level *)
@@ -62,7 +62,8 @@ Init == t = 1 /\ o = 1 /\ phase = "hdr"
 Line(r) == PrintT("@@SCN|" \o ToJson(r))
 SetToSeq(S) == LET RECURSIVE F(_, _) F(R, acc) == IF R = {} THEN acc ELSE LET x == CHOOSE x \in R : \A y \in R : x <= y IN F(R \ {x}, Append(acc, x)) IN F(S, <<>>)
 Vals(e, pos) == IF IsJ2k(e) /\ pos \in J2kSizHigh(e.head) THEN (IF Full THEN <<0, 1, 2, 3, 4, 8, 16, 32, 64, 127, 128, 129, 192, 254, 255>> ELSE <<0, 1, 128, 255>>)
-                ELSE IF Full THEN <<>> ELSE IF pos \in Critical(e) THEN SetToSeq(Wide) ELSE SetToSeq(Small)
+                ELSE IF Full THEN (IF pos \in Critical(e) THEN <<>> ELSE SetToSeq(Boundary))
+                ELSE IF pos \in Critical(e) THEN SetToSeq(Wide) ELSE SetToSeq(Small)
 Large(e) == e.len > 4096            \* third-party fixtures: quick tier only truncates and pokes a few bytes
 
 NextTemplate == t' = t + 1 /\ o' = 1 /\ phase' = "hdr"
